@@ -34,6 +34,29 @@ def queue_entry_points(F, M):
     return out
 
 
+_api_cache = {}
+
+
+def queue_api_entry_points(F, M):
+    """Methods of the queue type that the rest of the crate (or a user) can call: `pub`, or called from a function
+    outside the queue's own impl.  Private helpers that are only reached through these are analysed inlined."""
+    k = id(F)
+    if k in _api_cache:
+        return _api_cache[k]
+    ids = set(b['id'] for b in queue_entry_points(F, M))
+    called_outside = set()
+    for b in F.bodies.values():
+        if b.get('impl_adt') == M.queue_adt and 'impl_trait' not in b:
+            continue
+        for bl in b['blocks']:
+            t = bl['term']
+            if t['k'] == 'call' and t.get('fn') in ids:
+                called_outside.add(t['fn'])
+    out = [b for b in queue_entry_points(F, M) if b.get('pub') or b['id'] in called_outside]
+    _api_cache[k] = out
+    return out
+
+
 def site(sg, n):
     return sg.where(n)
 
